@@ -375,12 +375,16 @@ func (nt *Net) startNode(n *Node) bool {
 		n.evsw = types.NewEventSwitch()
 		n.evsw.Start()
 		nt.installAppHooks(n)
-		n.conR = pbft.NewConsensusReactor(cs, false)
+		n.conR = pbft.NewConsensusReactor(cs, nt.Sc.ViaSwitch)
 		cs.BindReactor(n.conR)
 		n.sw = p2p.NewSwitch(viper.New())
 		n.sw.AddReactor("CONSENSUS", n.conR)
 		n.conR.SetEventSwitch(n.evsw)
 		_, err = n.conR.Start()
+		if err == nil && nt.Sc.ViaSwitch {
+			// what BlockchainReactor's switch-to-consensus event does once the node is caught up
+			n.conR.SwitchToConsensus(st)
+		}
 		done <- started{err}
 	}()
 	select {
